@@ -141,8 +141,16 @@ def apply_violations(bname, viol):
                 "grid_not_dataclass": "DiscreteGrid(int)",
                 "grid_nan_bound": "Lin(float('nan'), 5, 3)", "grid_inf_bound": "Log(1, float('inf'), 3)",
             }[v]
-            # an extra, otherwise harmless choice variable carries the invalid grid
-            choices = choices + [(f"x_{v}", bad)]
+            # the invalid grid replaces the grid of a variable that the model really uses (an unused extra
+            # variable would be rejected for another reason and mask the grid rule)
+            if bad.startswith("DiscreteGrid"):
+                choices = [(n, bad if n == "d" else g) for n, g in choices]
+            elif any(n == "c" for n, _ in choices):
+                choices = [(n, bad if n == "c" else g) for n, g in choices]
+            elif wcont:
+                states = [(n, bad if n == "w" else g) for n, g in states]
+            else:
+                continue
         applicable.append(v)
     text = family.assemble(T, src, states, choices, funcs, keys)
     return text, applicable
